@@ -128,3 +128,33 @@ def tiny_alphabet_spec(rng, n):
         if rng.random() < 0.4:
             stmts.append("fin %d" % s)
     return stmts
+
+
+def intensify(case, rng):
+    """failing-input search around a builder history on which model and implementation disagree: keep the
+    history and observe the automaton exhaustively (every transition on all critical characters, acceptance of
+    all words <= 4 over several alphabets, the table, pruning, minimization in both orders)"""
+    stmts = [s for s in case.split(" ; ") if s.split() and s.split()[0] in ("new", "add", "def", "fin")]
+    pts = set([0, MAXC])
+    for s in stmts:
+        t = s.split()
+        if t[0] == "add":
+            a, b = int(t[2]), int(t[3])
+            for x in (a - 1, a, b, b + 1):
+                if 0 <= x <= MAXC:
+                    pts.add(x)
+    pts = sorted(pts)
+    out = []
+    for build in ("build", "buildu"):
+        for variant in range(3):
+            alpha = rng.sample(pts, min(3, len(pts)))
+            obs = [build, "dump", "nextall %d %s" % (len(pts), " ".join(map(str, pts))), "edges", "finals", "table", "alphabet",
+                   "acceptsall 4 %d %s" % (len(alpha), " ".join(map(str, alpha)))]
+            if variant == 0:
+                obs += ["prune", "table", "minimize", "finals", "acceptsall 4 %d %s" % (len(alpha), " ".join(map(str, alpha)))]
+            elif variant == 1:
+                obs += ["minimize", "finals", "prune", "minimize", "acceptsall 4 %d %s" % (len(alpha), " ".join(map(str, alpha)))]
+            else:
+                obs += ["minimize", "minimize", "table"]
+            out.append(" ; ".join(stmts + obs))
+    return out
